@@ -58,7 +58,7 @@ class InitSim(Sim):
     PROBES = ["stub_hit_uniform", "stub_hit_normal", "real_rng_large_sample", "rank1_plain_filler", "rank_lt2_refused", "fan_out_mode",
               "leaky_relu_slope", "layer_linear", "layer_conv1d", "layer_conv2d", "float64", "requires_grad_kept", "rank3", "rank4", "gain_not_one", "non_contiguous_tensor", "initialiser_inside_no_grad",
               "earlier_tensor_updated_in_place", "earlier_tensor_initialised_again", "initialiser_interrupted_then_reissued", "initialiser_call_refused_then_reissued",
-              "weight_replaced_then_reset_parameters", "tensor_above_2_20_elements"]
+              "weight_replaced_then_reset_parameters", "tensor_above_2_20_elements", "calculate_gain_called_directly", "layer_rebuilt_with_other_fan_in_after_drop"]
     RULE = ("one run = 3-10 initialiser / layer-constructor calls with seeded configurations (shape rank 1-4, gain, mode, nonlinearity, slope, "
             "dtype, requires_grad), each under the stub stream or the real seeded generator; distinct = initialiser x rank x mode x nonlinearity "
             "x dtype x stream; non-trivial = a random initialiser ran on a tensor of rank >= 2")
@@ -82,6 +82,10 @@ class InitSim(Sim):
     def gen(self, rng, st):
         if getattr(st, "pending", None):
             return st.pending.pop(0)
+        if rng.random() < 0.06:
+            # calculate_gain called directly, the way user code does (`gain=calculate_gain('leaky_relu')`), before later initialiser calls
+            nl = rng.choice(NONLIN)
+            return {"k": "gain_call", "nonlinearity": nl, "param": rng.choice([None, None, 0.2, 1, 0.5]) if nl == "leaky_relu" else None}
         if st.kept and rng.random() < 0.3:
             i = rng.randrange(len(st.kept))
             u = rng.random()
@@ -114,6 +118,9 @@ class InitSim(Sim):
                 args = {"cin": rng.randint(8, 16) if big else rng.randint(1, 3), "cout": rng.randint(20, 30) if big else rng.randint(1, 4),
                         "k": [rng.randint(3, 5), rng.randint(3, 5)] if big else rng.choice([rng.randint(1, 3), [rng.randint(1, 3), rng.randint(1, 3)]]), "bias": rng.random() < 0.7}
             ev = {"k": "layer", "kind": kind, "args": args, "how": how}
+            if kind == "Linear" and not big and rng.random() < 0.4:
+                # a layer of the SAME number of weights but another fan-in is built right after this one was dropped (search over widths)
+                st.pending = [{"k": "layer", "kind": "Linear", "args": {"in": args["out"], "out": args["in"], "bias": args["bias"]}, "how": "stub", "churn": True}]
             if not big and rng.random() < 0.5:
                 # later the program swaps the weight for one with another fan-in (pruning / widening a layer) and resets the layer,
                 # or simply resets the untouched layer a second time
@@ -251,6 +258,18 @@ class InitSim(Sim):
                         f"initialised or updated since (event {ev['k']} {ev.get('fn', ev.get('kind', ''))})")
             if bool(t.requires_grad) != rg:
                 st.fail("C15.in_place", f"tensor #{n} lost/gained requires_grad ({t.requires_grad}, was {rg}) (event {ev['k']} {ev.get('fn', '')})")
+
+    def _ev_gain_call(self, st, ev):
+        init = st.SG.init
+        nl, prm = ev["nonlinearity"], ev.get("param")
+        try:
+            got = init.calculate_gain(nl) if prm is None else init.calculate_gain(nl, prm)
+        except Exception as e:
+            st.fail("C15.gain", f"calculate_gain({nl!r}, {prm!r}) raised {type(e).__name__}: {e}")
+        want = gain_of(nl, prm)
+        st.probes["calculate_gain_called_directly"] += 1
+        if not abs(float(got) - want) <= 1e-12 * max(1.0, abs(want)):
+            st.fail("C15.gain", f"calculate_gain({nl!r}, {prm!r}) = {got!r}, the documented value is {want!r} (earlier calls must not change it)")
 
     def _ev_touch(self, st, ev):
         if ev["idx"] >= len(st.kept):
@@ -400,6 +419,10 @@ class InitSim(Sim):
         a = ev["args"]
         kind = ev["kind"]
         stub = RngStub(perm_seed=len(st.events)) if ev["how"] == "stub" else None
+        if ev.get("churn"):
+            import gc
+            gc.collect()
+            st.probes["layer_rebuilt_with_other_fan_in_after_drop"] += 1
         st.sig.append(f"{kind}:{ev['how']}:{a['bias']}")
         st.nontrivial = True
 
